@@ -158,7 +158,7 @@ def run_corrupt(case, R):
             deliverable.append(exp)
         off += len(raw)
     R.nt()
-    R.cls("corrupt:" + region, f"at-frame={min(k, 3)}")
+    R.cls("corrupt:" + region, f"at-frame={min(k, 3)}", "idle" if case.get("idle") else "request-pending")
     R.sub = len(bits) - 1
     n_http = sum(1 for m in msgs if m["kind"] == "HTTP")
 
@@ -178,9 +178,11 @@ def run_corrupt(case, R):
             t = FakeTransport(loop, FakeSocket(None, "10.0.0.1", 1), p)
             p.connection_made(t)
             pending = _Fut(log)
-            p.result_cbs = [_Fut(log) for _ in range(len([e for e in deliverable if e[0] == "HTTP"]))] + [pending]
+            p.result_cbs = [_Fut(log) for _ in range(len([e for e in deliverable if e[0] == "HTTP"]))]
+            idle = bool(case.get("idle"))          # no request outstanding when the bad frame arrives (e.g. it was meant to be an event)
             real_pending = loop.create_future()
-            p.result_cbs.append(real_pending)
+            if not idle:
+                p.result_cbs += [pending, real_pending]
             cuts = sorted({int(c) % len(data) for c in case.get("cuts", [])} - {0})
             pos = 0
             for c in cuts + [len(data)]:
@@ -200,6 +202,8 @@ def run_corrupt(case, R):
             if not t.is_closing() or not t.lost_called:
                 R.fail("C05.corrupt-frame-keeps-session", f"{desc}: transport not closed (fatal={t.fatal!r})", region=region)
                 return
+            if idle:
+                continue
             if not real_pending.done() or not isinstance(real_pending.exception(), AccessoryDisconnectedError):
                 R.fail("C05.pending-not-failed", f"{desc}: pending request state {real_pending!r:.120}", region=region)
                 return
@@ -214,7 +218,7 @@ def corrupt_cases(draw):
     msgs = draw(st.lists(message(small=True), min_size=1, max_size=3))
     sizes = draw(st.lists(st.sampled_from([8, 16, 17, 40, 100, 1024]), min_size=1, max_size=3))
     return {"msgs": msgs, "sizes": sizes, "frame": draw(st.integers(0, 50)), "region": draw(st.sampled_from(["len", "tag", "ct", "ct"])),
-            "cuts": draw(st.lists(st.integers(1, 5000), max_size=4))}
+            "cuts": draw(st.lists(st.integers(1, 5000), max_size=4)), "idle": draw(st.booleans())}
 
 
 # ---------------------------------------------------------------- outbound
